@@ -37,7 +37,9 @@ Record hinv (D : list positive) (h : heap) : Prop := mk_hinv {
                       findw h x = Some cx /\ w_parent cx = Some p /\ anc h x root);
   (* only restacking requests are queued *)
   hi_qkind : forall q cq, findq h q = Some cq -> is_restack (q_change cq) = true;
-  hi_drag : r_drag (rx h) = Some None;
+  (* the drag source, if there is one, is attached to the root (while the root is there and is not being destroyed) *)
+  hi_drag : exists od, r_drag (rx h) = Some od /\
+                       forall d, od = Some d -> ~ In root D -> findw h root <> None -> anc h d root;
   hi_nextw : forall a, findw h a <> None -> (a < nextw h)%positive;
   hi_nextw_root : (root < nextw h)%positive;
   hi_nextq : forall q, findq h q <> None -> (q < nextq h)%positive
@@ -125,7 +127,8 @@ Proof.
     + intros q cq Hfq. rewrite Fq in Hfq. destruct (Hq3 q cq Hfq) as [x [p [cx [H1 [H2 [H3 [H4 H5]]]]]]].
       exists x, p, cx. rewrite Fw. auto 10.
   - intros q cq Hfq. rewrite Fq in Hfq. eauto.
-  - rewrite Hr. exact Dg.
+  - rewrite Hr. destruct Dg as [od [E Hd]]. exists od. split; [exact E|]. intros d Ed Hn Hl. apply An. apply Hd; auto.
+    rewrite <- Fw. exact Hl.
   - intros a Ha. rewrite Fw in Ha. rewrite Hnw. auto.
   - rewrite Hnw. exact NWR.
   - intros q Hq'. rewrite Fq in Hq'. rewrite Hnq. auto.
